@@ -70,6 +70,8 @@ def augment(lines, impl, gran=None, noatime=False, fault_by_step=None):
                 toks.append("times=" + ",".join(str(t) for t in times))
                 toks.append("orders=" + "|".join(",".join(o) for o in orders))
                 toks.append("fresh=" + ",".join(fresh))
+                if s.get("start"):
+                    toks.append("start=%d" % s["start"])
             if gran:
                 toks.append("gran=%d" % gran)
             if noatime:
